@@ -22,7 +22,10 @@ CORR_ONLY = ["Time_Display at floor knife-edges of the double arithmetic (a floo
              "absolute slack 2^-40 of the table's scale), counted as excused",
              "File_Exists: the file system is a parameter of the model (PathKind)",
              "character-level glue of the model (lexing the rendered file gives back the tokens; parseDec(render d) = value d) "
-             "is validated on every round-trip request by the driver (glue1/tl1), not proved",
+             "is PROVED for rectangular tables with header lines < 10000 characters and written values in the finite double range "
+             "(parseDec_render, render_no_separator, line_tokenize, lexFile_export, glue_proved, export_import_bytes_roundtrip); "
+             "the driver still validates it on every round-trip request (glue1/tl1), which also covers ragged tables, "
+             "over-long header lines and out-of-range values",
              "Export_Function with logarithmic spacing (Log_Space: exp/log) is not modelled",
              "values of the constants involving M_PI, sqrt, non-integer pow: the opaque nodes are evaluated with mpmath on the comparison side"]
 ASSUMPTIONS = ["std::to_string(int) is the decimal representation with a leading '-' for negative values; std::floor/int conversion exact for |t| < 2^31",
